@@ -35,6 +35,7 @@ impl Prop for C06Prop {
             keyings: 1,
             boundary_per_mille: 0,
             huge_one_in: 2000,
+            hub_one_in: 0,
         }
         .gen("C06", seed, idx)
     }
